@@ -45,7 +45,7 @@ void rmact (int k) { remove_action ("act", "verb" + k); }
 
 // input_to callback with two carry-over arguments (the harness sets command_giver to the interactive user)
 void icb (string str, mixed a, mixed b) { }
-void doinput (mixed a, mixed b) { input_to ("icb", 0, a, b); }
+void doinput (mixed a, mixed b, int gc) { if (gc) get_char ("icb", 0, a, b); else input_to ("icb", 0, a, b); }
 
 // remove_call_out by function name / all call_outs of this object
 void rmbyname (int k) { remove_call_out ("cbs" + k); }
